@@ -26,13 +26,18 @@ def history(rng, api, depth, ctr=None, lens=None):
     toks = []
     pushed = 0
     delivered = 0
+    mlens = []
     for _ in range(depth):
         r = rng.random()
         if r < 0.40 or pushed == 0:
             tag = rng.choice([0, 0, 0, 1, 2, 3]) if (api == "object" or rng.random() < 0.7) else rng.randrange(256)
             toks.append(tok_push(rng, lens.pop() if lens else rand_len(rng), rng.choice([0, 0, 0, 1, 15, 16, 17, 33]) if rng.random() < 0.8 else rng.randrange(0, 80), tag))
+            mlens.append((len(toks[-1].split(":")[1]) // 2) if toks[-1].split(":")[1] != "-" else 0)
             pushed += 1
         elif r < 0.65 and delivered < pushed:
+            if api == "classic" and mlens[delivered] > 0 and rng.random() < 0.25:
+                # first offered with a message buffer that is too small: refused, nothing consumed, then delivered properly
+                toks.append("Ds:%d" % rng.choice([1, 1, 2, mlens[delivered]]))
             toks.append("D"); delivered += 1
         elif r < 0.72 and delivered == pushed:
             toks += ["K", "k"]          # explicit rekey on both sides at the same stream position
@@ -71,7 +76,11 @@ def expect_history(line):
                 if not o.startswith("c:"):
                     return False
                 npushed += 1
-            elif k == "D":
+            elif k == "Ds" and line.split(" ")[1] == "classic" and nxt < npushed and pushes[nxt][1] != "-":
+                # an undersized message buffer (classic API): refused, and nothing is consumed
+                if not o.startswith("err"):
+                    return False
+            elif k in ("D", "Ds"):
                 if nxt >= npushed:
                     if o != "none":
                         return False
@@ -129,6 +138,22 @@ def histories(rng, tier):
         ctr = CTR_CLASSES[tag % len(CTR_CLASSES)]
         line = "sstream classic %s %s %s %s %s %s D D S" % (hx(key), hx(hdr), ctr, ctr, tok_push(rng, tag % 37, 0, tag), tok_push(rng, 3, 2, 0))
         cs.append(Case(line, cls="tag-sweep/rekeybit=%d" % ((tag >> 1) & 1), expect=expect_history(line)))
+    cs += short_buffer_cases(rng)
+    return cs
+
+
+def short_buffer_cases(rng, c17=False):
+    """an undersized message buffer offered to the classic pull (every tag class, every counter class, buffer short by 1 … all):
+    refused with nothing consumed and nothing written — the same ciphertext is then accepted, and so is the rest of the stream"""
+    cs = []
+    for tag in (0, 1, 2, 3, 0x42):
+        for ctr in CTR_CLASSES:
+            for mlen in (1, 16, 17, 64, 65):
+                for short in sorted({1, mlen // 2 or 1, mlen}):
+                    key, hdr = rbytes(rng, 32), rbytes(rng, 24)
+                    line = "sstream classic %s %s %s %s %s D Ds:%d S D %s D S" % (hx(key), hx(hdr), ctr, ctr, tok_push(rng, 5, 3, 0) + " " + tok_push(rng, mlen, mlen % 3, tag), short, tok_push(rng, 7, 0, 0))
+                    cs.append(Case(line, cls="short-buffer/tag=%02x" % tag, expect=c17_history_pred(line) if c17 else expect_history(line),
+                                   meta={"why": "a pull refused for an undersized message buffer must consume nothing and write nothing"}))
     return cs
 
 
